@@ -41,10 +41,14 @@ def main():
                 json.dump(meta, open(os.path.join(d, 'meta.json'), 'w'), indent=1)
                 print(sid, 'PATCH-FAILED', flush=True)
                 continue
-            env = dict(os.environ, VERIF_REPO=T, VERIF_EVIDENCE_DIR=EV, VERIF_CACHE_KEEP='6')
+            env = dict(os.environ, VERIF_REPO=T, VERIF_EVIDENCE_DIR=EV, VERIF_CACHE_KEEP='12')
             res = {}
-            for c in checks:
-                r = subprocess.run([os.path.join(VERIF, 'check'), c], env=env, stdout=subprocess.PIPE, stderr=subprocess.STDOUT, text=True)
+            # the first check extracts the facts of this tree; the others then run side by side on the cached fact file
+            first = subprocess.run([os.path.join(VERIF, 'check'), checks[0]], env=env, stdout=subprocess.PIPE, stderr=subprocess.STDOUT, text=True)
+            from concurrent.futures import ThreadPoolExecutor
+            with ThreadPoolExecutor(max_workers=int(os.environ.get('SEED_DETECT_PAR', '6'))) as ex:
+                rest = list(ex.map(lambda c_: subprocess.run([os.path.join(VERIF, 'check'), c_], env=env, stdout=subprocess.PIPE, stderr=subprocess.STDOUT, text=True), checks[1:]))
+            for c, r in zip(checks, [first] + rest):
                 viol = []
                 rp = os.path.join(EV, 'replay', c + '.json')
                 if r.returncode == 1 and os.path.exists(rp):
